@@ -228,7 +228,7 @@ fn fixed_probes(rep: &mut Report) {
 /// Methods that write their output, in every return shape the gate admits (`()`, `Result<(), E>`, `Option<()>`), on
 /// every kind of receiver: the C prototype has as many parameters as the function the proc macro exports (the write
 /// buffer last), whatever the return shape.  (The random modules seldom draw `Option<()>` together with a writer.)
-fn write_param_probe(rep: &mut Report) {
+pub fn write_param_probe(rep: &mut Report) {
     let src = "#[diplomat::bridge]\nmod ffi {\n    use diplomat_runtime::DiplomatWrite;\n    #[diplomat::opaque]\n    pub struct Gauge(u8);\n    pub struct Pt { pub x: i32 }\n    pub enum Lvl { A, B }\n    impl Gauge {\n        pub fn describe(&self, w: &mut DiplomatWrite) { let _ = w; }\n        pub fn describe_checked(&self, limit: u8, w: &mut DiplomatWrite) -> Result<(), ()> { let _ = (limit, w); Ok(()) }\n        pub fn describe_code(&self, w: &mut DiplomatWrite) -> Result<(), u8> { let _ = w; Ok(()) }\n        pub fn describe_nonneg(&self, w: &mut DiplomatWrite) -> Option<()> { let _ = w; None }\n        pub fn plain(&self) -> Option<()> { None }\n    }\n    impl Pt {\n        pub fn show(self, w: &mut DiplomatWrite) -> Option<()> { let _ = w; None }\n    }\n    impl Lvl {\n        pub fn name(self, w: &mut DiplomatWrite) -> Result<(), ()> { let _ = w; Ok(()) }\n    }\n}\n".to_string();
     let case = "(c01 probe write-parameters)";
     rep.oracle_runs += 1;
